@@ -117,6 +117,13 @@ func hasAuth(q []string) bool {
 	return false
 }
 
+// forceRealm: set by the session generator so that one middleware sees the same realm again
+// under another algorithm.
+var (
+	forceRealm   string
+	forceRealmOn bool
+)
+
 // genChallenge draws a challenge specification and one textual rendering of it.
 // wire=true keeps the text transmittable as an HTTP field value.
 func genChallenge(r *hk.Rand, wire bool) chalCase {
@@ -213,6 +220,10 @@ func genChallenge(r *hk.Rand, wire bool) chalCase {
 	}
 	if s.Alg == "" {
 		feat = append(feat, "noalg")
+	}
+
+	if forceRealmOn {
+		s.Realm = forceRealm
 	}
 
 	// ----- rendering -----
